@@ -529,10 +529,14 @@ class Ex:
 
     def _havoc(self, node_body, ls: LoopSpec):
         names, fields = self._mutated(node_body)
+        vt = getattr(self.spec, "var_types", {}) or {}
         for nm in sorted(names):
             sc = self.scope.lookup(nm)
             if sc is not None:
-                sc.vars[nm] = self._havoc_val(sc.vars[nm], nm)
+                if nm in vt and not isinstance(sc.vars[nm], (VObj, VFunc)):
+                    sc.vars[nm] = self.fresh(vt[nm], nm)
+                else:
+                    sc.vars[nm] = self._havoc_val(sc.vars[nm], nm)
         for (objname, fld) in sorted(fields):
             obj = self.scope.lookup(objname).vars[objname]
             key = (obj.id, fld)
